@@ -72,26 +72,57 @@ func chartYAML(name string) string {
 	return fmt.Sprintf("apiVersion: v2\nname: %q\nversion: 0.1.0\n", name)
 }
 
-// shape of the adversarial part of a case for finding keys.
+// shape of the adversarial part of a case for finding keys: the set of
+// features of the non-baseline entries (name features, link types, name
+// routes) and of the chart name.
 func (cs Case) shape() string {
-	var parts []string
+	set := map[string]bool{}
 	for _, e := range cs.Entries {
-		if e.Data != "" && (strings.HasSuffix(e.Name, "Chart.yaml") || strings.HasSuffix(e.Name, "templates/t.yaml")) && e.Route == "" {
+		if isBaselineEntry(e) {
 			if m := chartNameRe.FindStringSubmatch(e.Data); m != nil && m[1] != "x" {
-				parts = append(parts, "chartname="+nameShape(m[1]))
+				set["chartname="+nameShape(m[1])] = true
 			}
 			continue
 		}
-		s := e.Type + ":" + nameShape(e.Name)
-		if e.Route != "" {
-			s += "@" + e.Route
+		if ns := nameShape(e.Name); ns != "plain" {
+			for _, f := range strings.Split(ns, "+") {
+				set[f] = true
+			}
 		}
-		parts = append(parts, s)
+		switch e.Type {
+		case "symrel", "symdd", "symabs", "symfile":
+			set["symlink-entry"] = true
+		case "hard":
+			set["hardlink-entry"] = true
+		}
+		if e.Route != "" {
+			set["route-"+e.Route] = true
+		}
 	}
-	if len(parts) > 4 {
-		parts = append(parts[:4], fmt.Sprintf("+%d", len(parts)-4))
+	var parts []string
+	for f := range set {
+		parts = append(parts, f)
 	}
-	return strings.Join(parts, ",")
+	sort.Strings(parts)
+	return strings.Join(parts, "+")
+}
+
+// uncleanClass says what is wrong with an exposed name.
+func uncleanClass(n string) string {
+	switch {
+	case n == "":
+		return "empty"
+	case strings.ContainsRune(n, '\\'):
+		return "backslash"
+	case strings.HasPrefix(n, "/"):
+		return "absolute"
+	}
+	for _, c := range strings.Split(n, "/") {
+		if c == ".." {
+			return "dotdot"
+		}
+	}
+	return "not-clean"
 }
 
 func (cs Case) stream(outsideAbs string) ([]byte, []span) {
@@ -178,7 +209,6 @@ func runLoad(cs Case) result {
 	if err != nil {
 		res.Err = err.Error()
 	}
-	shape := cs.shape()
 	// (1) exposed names
 	if err == nil {
 		var names []string
@@ -207,7 +237,7 @@ func runLoad(cs Case) result {
 			}
 			if !cleanRelSlash(n) {
 				res.Viols = append(res.Viols, viol{
-					Key:  cs.EP + "/unclean-name/" + shape,
+					Key:  cs.EP + "/unclean-name/" + uncleanClass(n),
 					What: fmt.Sprintf("%s accepted the archive %v and exposes the file name %q, which is not a clean relative slash path", cs.EP, cs.Entries, n),
 				})
 				break
@@ -233,8 +263,8 @@ func runLoad(cs Case) result {
 	}
 	if err == nil && (maxDecl > F || declTotal > T) {
 		res.Viols = append(res.Viols, viol{
-			Key:  cs.EP + "/oversize-accepted/" + sizeShape(cs, F, T),
-			What: fmt.Sprintf("%s accepted an archive with largest file %d (limit %d) and total %d (limit %d): %v", cs.EP, maxDecl, F, declTotal, T, cs.Entries),
+			Key:  cs.EP + "/oversize-accepted/" + overKind(maxDecl > F, declTotal > T),
+			What: fmt.Sprintf("%s accepted an archive with largest file %d (limit %d) and total %d (limit %d): %s %v", cs.EP, maxDecl, F, declTotal, T, sizeShape(cs, F, T), short(cs.Entries)),
 		})
 	}
 	if err == nil && cs.EP == "loadfiles" {
@@ -242,13 +272,13 @@ func runLoad(cs Case) result {
 		for _, f := range files {
 			sum += int64(len(f.Data))
 			if int64(len(f.Data)) > F {
-				res.Viols = append(res.Viols, viol{Key: cs.EP + "/loaded-file-over-limit/" + sizeShape(cs, F, T),
-					What: fmt.Sprintf("loaded file %q has %d bytes, limit %d: %v", f.Name, len(f.Data), F, cs.Entries)})
+				res.Viols = append(res.Viols, viol{Key: cs.EP + "/loaded-file-over-limit",
+					What: fmt.Sprintf("loaded file %q has %d bytes, limit %d: %v", f.Name, len(f.Data), F, short(cs.Entries))})
 			}
 		}
 		if sum > T {
-			res.Viols = append(res.Viols, viol{Key: cs.EP + "/loaded-total-over-limit/" + sizeShape(cs, F, T),
-				What: fmt.Sprintf("loaded files total %d bytes, limit %d: %v", sum, T, cs.Entries)})
+			res.Viols = append(res.Viols, viol{Key: cs.EP + "/loaded-total-over-limit",
+				What: fmt.Sprintf("loaded files total %d bytes, limit %d: %v", sum, T, short(cs.Entries))})
 		}
 	}
 	// (3) bytes pulled: file-content bytes in the 512-byte chunks the decompressor touched
@@ -268,8 +298,8 @@ func runLoad(cs Case) result {
 		res.BytesPulled, res.ContentBytes = int64(n)*512, total
 		const slack = 511 // the consumer's last read may end inside a 512-byte gzip member
 		if total > T+slack {
-			res.Viols = append(res.Viols, viol{Key: cs.EP + "/read-beyond-total-limit/" + sizeShape(cs, F, T),
-				What: fmt.Sprintf("%s pulled %d file-content bytes out of the gzip stream, total limit is %d (+%d slack): %v", cs.EP, total, T, slack, cs.Entries)})
+			res.Viols = append(res.Viols, viol{Key: cs.EP + "/read-beyond-total-limit",
+				What: fmt.Sprintf("%s pulled %d file-content bytes out of the gzip stream, total limit is %d (+%d slack): %v", cs.EP, total, T, slack, short(cs.Entries))})
 		}
 		var eis []int
 		for ei := range per {
@@ -278,8 +308,8 @@ func runLoad(cs Case) result {
 		sort.Ints(eis)
 		for _, ei := range eis {
 			if per[ei] > F+slack {
-				res.Viols = append(res.Viols, viol{Key: cs.EP + "/read-beyond-file-limit/" + sizeShape(cs, F, T),
-					What: fmt.Sprintf("%s pulled %d content bytes of entry %d, per-file limit is %d (+%d slack): %v", cs.EP, per[ei], ei, F, slack, cs.Entries)})
+				res.Viols = append(res.Viols, viol{Key: cs.EP + "/read-beyond-file-limit",
+					What: fmt.Sprintf("%s pulled %d content bytes of entry %d, per-file limit is %d (+%d slack): %v", cs.EP, per[ei], ei, F, slack, short(cs.Entries))})
 				break
 			}
 		}
@@ -287,7 +317,25 @@ func runLoad(cs Case) result {
 	return res
 }
 
-// sizeShape: finding-key part for size cases: per entry the size class relative to the limits.
+func overKind(file, total bool) string {
+	switch {
+	case file && total:
+		return "file+total"
+	case file:
+		return "file"
+	}
+	return "total"
+}
+
+// short prints at most six entries.
+func short(es []Entry) string {
+	if len(es) <= 6 {
+		return fmt.Sprint(es)
+	}
+	return fmt.Sprintf("%v ... (%d entries)", es[:6], len(es))
+}
+
+// sizeShape: description for size cases: per entry the size class relative to the limits.
 func sizeShape(cs Case, F, T int64) string {
 	var parts []string
 	for _, e := range cs.Entries {
@@ -466,7 +514,7 @@ func (cs Case) keyTail() string {
 func (cs Case) describe() string {
 	var parts []string
 	if len(cs.Entries) > 0 && cs.EP != "download" {
-		parts = append(parts, fmt.Sprintf("entries %v", cs.Entries))
+		parts = append(parts, "entries "+short(cs.Entries))
 	}
 	if cs.Layout != "" {
 		parts = append(parts, fmt.Sprintf("layout %s abs=%v", cs.Layout, cs.LinkAbs))
